@@ -91,6 +91,8 @@ struct Failure {
 
 #[derive(Default)]
 struct CaseResult {
+    /// (configuration, outcome of process()) for every configuration that was run
+    outcomes: Vec<(String, &'static str)>,
     text_has_comment: bool,
     uncovered_tree: bool,
     method_types: bool,
@@ -192,6 +194,7 @@ fn run_pipeline(case: &Case, config_text: &str, result: &mut CaseResult) {
                 eprintln!("CONFIG REJECTED: {} :: {}", err, config_text.chars().take(300).collect::<String>());
             }
             result.hists.push(("pipeline_outcome", "configuration-rejected".to_owned()));
+            result.outcomes.push((config_text.to_owned(), "configuration-rejected"));
             return;
         }
         Ok(Ok(c)) => c,
@@ -216,12 +219,14 @@ fn run_pipeline(case: &Case, config_text: &str, result: &mut CaseResult) {
                 Err(panic) => return fail(result, "panic", "error-display", Some(panic), String::new()),
             };
             result.hists.push(("pipeline_outcome", "setup-error-value".to_owned()));
+            result.outcomes.push((config_text.to_owned(), "setup-error-value"));
             if message.trim().is_empty() {
                 fail(result, "error-without-file", "process", None, "empty error message".to_owned());
             }
         }
         Ok(Ok(Err(errors))) => {
             result.hists.push(("pipeline_outcome", "error-values".to_owned()));
+            result.outcomes.push((config_text.to_owned(), "error-values"));
             for err in &errors {
                 match guarded(|| err.to_string()) {
                     Err(panic) => fail(result, "panic", "error-display", Some(panic), String::new()),
@@ -238,6 +243,7 @@ fn run_pipeline(case: &Case, config_text: &str, result: &mut CaseResult) {
         }
         Ok(Ok(Ok(()))) => {
             result.hists.push(("pipeline_outcome", "ok".to_owned()));
+            result.outcomes.push((config_text.to_owned(), "ok"));
             let outputs: Vec<String> = if batch {
                 std::iter::once("out/main.lua".to_owned())
                     .chain(case.files.iter().filter(|(p, _)| p.ends_with(".lua")).map(|(p, _)| p.replacen("src/", "out/", 1)))
@@ -658,7 +664,7 @@ fn random_configs(rng: &mut Rng, all_rules: &[&'static str], count: usize, allow
                 .collect();
             let generator = *rng.pick(luagen::GENERATORS);
             let span = if rng.chance(1, 10) { *rng.pick(&[2usize, 3, 7, 20, 1000]) } else { *rng.pick(luagen::SPANS) };
-            luagen::configuration(&rules, generator, span, allow_bundle && rng.chance(1, 2))
+            luagen::configuration(&rules, generator, span, allow_bundle && rng.chance(3, 4))
         })
         .collect()
 }
@@ -750,19 +756,57 @@ fn generate_cases(rng: &mut Rng, thorough: bool, safe_depth: &BTreeMap<String, u
             });
         }
     }
-    // 8. bundling: the entry requires generated modules (multi-byte content, comments)
+    // 8. bundling: the entry requires generated modules (multi-byte content, comments) and data
+    //    files whose keys cover the identifier boundary classes; members are regenerated until
+    //    they parse, so that bundling really happens
+    let parses = |text: &str| guarded(|| Parser::default().parse(text).is_ok()).unwrap_or(false);
     for _ in 0..(60 * scale) {
-        let module = luagen::Gen::program(rng, 6) + "\nreturn { é = 'é' }\n";
-        let other = "-- é€ header\nlocal M = {} --[[ 𝄞 ]]\nfunction M.f() return `é{1}` end\nreturn M\n".to_owned();
-        let body = luagen::Gen::program(rng, 6);
-        let text = format!("local m = require('./m') -- é\nlocal o = require(\"./other.lua\")\nlocal d = require('./data.json')\n{}\n", body);
+        let mut module = String::new();
+        for _ in 0..12 {
+            module = luagen::Gen::program(rng, 6) + "\ndo end\nreturn { ['é'] = 'é', [''] = -'1', ['end'] = '' .. 1 }\n";
+            if parses(&module) {
+                break;
+            }
+            module = "return { ['é'] = 'é' }\n".to_owned();
+        }
+        let other = "-- é€ header\nlocal M = {} --[[ 𝄞 ]]\nfunction M.f() return `é{1}` end\nM['été'] = M.f\nreturn M\n".to_owned();
+        let header = "local m = require('./m') -- é\nlocal o = require(\"./other.lua\")\nlocal d = require('./data.json')\nlocal y = require('./data.yml')\nlocal t = require('./data.toml')\nlocal s = require('./text.txt')\n";
+        let mut text = String::new();
+        for _ in 0..12 {
+            text = format!("{}{}\n", header, luagen::Gen::program(rng, 6));
+            if parses(&text) {
+                break;
+            }
+            text = format!("{}return m, o, d, y, t, s\n", header);
+        }
         let files = vec![
             ("src/m.lua".to_owned(), module),
             ("src/other.lua".to_owned(), other),
-            ("src/data.json".to_owned(), "{\"a\": [1, 2, {\"é\": null}]}".to_owned()),
+            (
+                "src/data.json".to_owned(),
+                "{\"a\": [1, 2, {\"é\": null}], \"clé\": 1, \"été\": 2, \"end\": 3, \"1a\": 4, \"\": 5, \" \": 6, \"名前\": 7, \"ok_1\": 8}".to_owned(),
+            ),
+            ("src/data.yml".to_owned(), "clé: 1\nété: [1, 2]\nend: x\n\"1a\": 4\nключ: {größe_2: true}\nok: ''\n".to_owned()),
+            ("src/data.toml".to_owned(), "ok = 1\n\"clé\" = 2\n\"end\" = 3\n[\"名前\"]\n\"1a\" = ''\n".to_owned()),
+            ("src/text.txt".to_owned(), "été\n]] ]=] \"é\" 'x'\n".to_owned()),
         ];
         let configs = random_configs(rng, &all_rules, 2, true);
         cases.push(Case { class: "bundle".to_owned(), text, files, configs });
+    }
+    // 10. boundary-class string literals in every operand / key / argument position, through each
+    //     rule alone and through all rules together (enumerated, not random)
+    for (index, content) in luagen::CLASS_CONTENTS.iter().enumerate() {
+        let text = luagen::class_program(content, index);
+        let mut configs = Vec::new();
+        for (k, rule) in all_rules.iter().enumerate() {
+            if *rule == "convert_require" {
+                continue;
+            }
+            let generator = luagen::GENERATORS[(k + index) % 3];
+            configs.push(luagen::configuration(&[luagen::rule_entry(rng, rule)], generator, luagen::SPANS[(k + index) % 3], false));
+        }
+        configs.extend(probe_configs());
+        cases.push(Case { class: "literal-classes".to_owned(), text, files: Vec::new(), configs });
     }
     // 9. batches with one bad member: errors are values naming the file, the rest is written
     for _ in 0..(25 * scale) {
@@ -1133,6 +1177,16 @@ fn report_failure(report: &mut Report, known: &[Known], case: &Case, failure: &F
     });
 }
 
+/// minimal share (percent) of process() runs of a class that must succeed
+fn ok_share_floor(class: &str) -> u64 {
+    match class {
+        "bundle" | "input:bundle" => 40,
+        "input:batch-one-bad" => 60,
+        c if c.starts_with("input:") => 0, // random / mutated classes may legitimately fail often
+        _ => 30,
+    }
+}
+
 fn corpus_dir() -> std::path::PathBuf {
     std::path::Path::new(env!("CARGO_MANIFEST_DIR")).join("../corpus/C12")
 }
@@ -1321,6 +1375,7 @@ fn run_on_big_stack(report: &mut Report, replay: Option<&str>) {
     let threads = std::thread::available_parallelism().map(|n| n.get()).unwrap_or(8).min(16);
     let mut failures: Vec<(Case, Failure)> = Vec::new();
     let mut slowest = Duration::from_secs(0);
+    let mut shares: BTreeMap<String, (u64, u64)> = BTreeMap::new();
     {
         let report_ref = &mut *report;
         pool::run_pool(cases, threads, run_case, |done, case| match done {
@@ -1369,6 +1424,33 @@ fn run_on_big_stack(report: &mut Report, replay: Option<&str>) {
                         }
                     }
                 }
+                // share of Ok results per configuration class (an exploration that always takes
+                // the error path explores nothing)
+                let batch = case.class.starts_with("batch");
+                let batch_fine = !result.failures.iter().any(|f| f.kind == "missing-output");
+                for (config, outcome) in &result.outcomes {
+                    let ok = if batch { *outcome == "error-values" && batch_fine } else { *outcome == "ok" };
+                    let mut classes: Vec<String> = vec![format!("input:{}", case.class.split(':').next().unwrap_or(""))];
+                    if let Ok(v) = serde_json::from_str::<Value>(config) {
+                        let g = v["generator"]["name"].as_str().or(v["generator"].as_str()).unwrap_or("?");
+                        classes.push(format!("generator:{}", g));
+                        for r in v["rules"].as_array().into_iter().flatten() {
+                            classes.push(format!("rule:{}", r["rule"].as_str().or(r.as_str()).unwrap_or("?")));
+                        }
+                        if v["bundle"].is_object() {
+                            classes.push("bundle".to_owned());
+                        }
+                    }
+                    classes.sort();
+                    classes.dedup();
+                    for class in classes {
+                        let entry = shares.entry(class).or_insert((0u64, 0u64));
+                        entry.1 += 1;
+                        if ok {
+                            entry.0 += 1;
+                        }
+                    }
+                }
                 report_ref.count("process_calls", result.pipelines);
                 report_ref.count("parse_calls", 2);
                 report_ref.count("parsed_tree_tokens_checked_in_range", result.tokens_checked);
@@ -1385,6 +1467,39 @@ fn run_on_big_stack(report: &mut Report, replay: Option<&str>) {
         });
     }
     report.count("slowest_case_ms", slowest.as_millis() as u64);
+    // self-check: every configuration class must reach the success path often enough
+    let mut table = Vec::new();
+    for (class, (ok, total)) in &shares {
+        let pct = ok * 100 / (*total).max(1);
+        report.count(&format!("ok_share_pct:{}", class), pct);
+        report.count(&format!("ok_share_runs:{}", class), *total);
+        table.push(format!("{}={}% of {}", class, pct, total));
+        let floor = ok_share_floor(class);
+        if *total >= 15 && pct < floor {
+            report.violation(Violation {
+                kind: "self-check".to_owned(),
+                check: format!("ok-share:{}", class),
+                what: format!(
+                    "only {}% of the {} process() runs of configuration class `{}` reached the success path (floor {}%): the exploration of this class is not exploring the code it claims to",
+                    pct, total, class, floor
+                ),
+                input: json!({"kind": "self-check", "class": class, "ok": ok, "total": total}),
+                failing_input_found: false,
+            });
+        }
+    }
+    for required in ["bundle", "input:batch-one-bad", "input:bundle", "generator:retain_lines", "generator:dense", "generator:readable"] {
+        if !shares.contains_key(required) {
+            report.violation(Violation {
+                kind: "self-check".to_owned(),
+                check: format!("ok-share:{}", required),
+                what: format!("configuration class `{}` was never run", required),
+                input: json!({"kind": "self-check", "class": required}),
+                failing_input_found: false,
+            });
+        }
+    }
+    report.notes.push(format!("share of process() runs reaching the success path, per configuration class (batch: the good members written while the bad one is reported): {}", table.join("; ")));
     // a case that exceeded the watchdog while 16 workers (and whatever else runs on the machine)
     // competed for the CPU is re-run alone with a 6x limit before it is called a hang
     let suspects: Vec<(Case, Failure)> = failures.iter().filter(|(_, f)| f.kind == "hang").cloned().collect();
